@@ -130,6 +130,30 @@ while true do
   local ok2 = pcall(w) emit(ok2)
   local ok3 = xpcall(coroutine.wrap(function() emit("x") coroutine.yield(1) end), function(e) emit("hh") return e end) emit(ok3)
 end`},
+	// coroutines that outlive the coroutine that created them (creator returns / dies by error),
+	// grandchildren: attaching a context must not change what resuming them does
+	{name: "coroutine_outlives_creator", src: `
+local inner, winner
+local outer = coroutine.create(function()
+  inner = coroutine.create(function(a) while true do a = coroutine.yield(a + 1) emit("in", a) end end)
+  winner = coroutine.wrap(function() local i = 0 while true do i = i + 1 emit("w", i) coroutine.yield(i) end end)
+  emit(coroutine.resume(inner, 1))
+  emit(winner())
+end)
+emit(coroutine.resume(outer)) emit(coroutine.status(outer))
+local n = 0
+while true do
+  n = n + 1
+  emit(coroutine.resume(inner, n)) emit(pcall(winner))
+  local mk = coroutine.wrap(function()
+    local g = coroutine.create(function() local gg = coroutine.wrap(function() while true do emit("gg") coroutine.yield(7) end end)
+      while true do emit("g", gg()) coroutine.yield(gg) end end)
+    if n % 2 == 0 then error({g}) end
+    return g
+  end)
+  local ok, g = pcall(mk) if not ok then g = g[1] end
+  local _, gg = coroutine.resume(g) emit(coroutine.status(g), gg()) emit(coroutine.resume(g))
+end`},
 	{name: "sort_comparator", src: `
 local t = {}
 while true do
@@ -215,6 +239,19 @@ for i = 1, 1e308 do end`},
 func corpus(tier string) []job {
 	n := 24
 	return []job{{
+		// fixed (3317c4c): with a live context a coroutine created inside another coroutine was
+		// cancelled when its creator finished
+		Name: "inner_coroutine_survives_creator", Class: "corpus/outlives_creator", Cap: 400, AllK: true,
+		Src: `
+local inner
+local outer = coroutine.create(function()
+  inner = coroutine.create(function(a) local b = coroutine.yield(a) return b + 1 end)
+  return coroutine.resume(inner, 1)
+end)
+emit(coroutine.resume(outer))
+emit(coroutine.status(outer))
+emit(coroutine.resume(inner, 1))`,
+	}, {
 		Name: "goloop_gsub_index_pcall", Class: "corpus/goloop_catch", Cap: 400, AllK: true, GoLoop: n,
 		Src: fmt.Sprintf(`
 local r = setmetatable({}, {__index = pcall, __call = function(t, k) emit(k) return "y" end})
@@ -434,7 +471,7 @@ func (g *gen) stmt(sb *strings.Builder, depth int, inCo, prot bool, ind string) 
 		return
 	}
 	in2 := ind + "  "
-	switch g.r.Pick(18, 10, 10, 9, 5, 8, 6, 7, 5, 5, 6, 4) {
+	switch g.r.Pick(18, 10, 10, 9, 5, 8, 6, 7, 5, 5, 6, 4, 5) {
 	case 0:
 		fmt.Fprintf(sb, "%semit(%d)\n", ind, g.r.Intn(100))
 	case 1: // loop
@@ -508,6 +545,20 @@ func (g *gen) stmt(sb *strings.Builder, depth int, inCo, prot bool, ind string) 
 		fmt.Fprintf(sb, "%semit((string.gsub(\"ab\", \"%%a\", function(c)\n", ind)
 		g.block(sb, depth-2, false, prot, in2)
 		fmt.Fprintf(sb, "%s  return c .. c\n%send)))\n", ind, ind)
+	case 12: // a coroutine created inside another coroutine and resumed after its creator is dead
+		esc, cr := g.fresh("esc"), g.fresh("cr")
+		fmt.Fprintf(sb, "%slocal %s\n%slocal %s = coroutine.wrap(function()\n%s  %s = coroutine.create(function(a)\n", ind, esc, ind, cr, ind, esc)
+		g.block(sb, depth-1, true, prot, in2+"  ")
+		fmt.Fprintf(sb, "%s  end)\n", ind)
+		if g.r.Bool() {
+			fmt.Fprintf(sb, "%s  emit(coroutine.resume(%s, 0))\n", ind, esc)
+		}
+		if g.r.Chance(30) {
+			fmt.Fprintf(sb, "%s  error(\"creator dies\")\n", ind)
+		}
+		fmt.Fprintf(sb, "%send)\n%semit(pcall(%s))\n", ind, ind, cr)
+		v := g.fresh("j")
+		fmt.Fprintf(sb, "%sfor %s = 1, %d do emit(coroutine.resume(%s, %s)) end\n", ind, v, g.r.Range(1, 3), esc, v)
 	case 11: // while with break, goto
 		v := g.fresh("w")
 		fmt.Fprintf(sb, "%slocal %s = 0\n%swhile true do\n%s  %s = %s + 1\n%s  if %s > %d then break end\n", ind, v, ind, ind, v, v, ind, v, g.r.Range(1, 3))
